@@ -24,7 +24,8 @@ Print Assumptions leaf_is_dir_sep_is_model.
 
 (* on POSIX is_any_sep is the same predicate (the models use one predicate for both) *)
 Theorem leaf_is_any_sep_is_dir_sep : forall c, Path.leaf_is_any_sep c = Path.leaf_is_dir_sep c.
-Proof. intros. unfold Path.leaf_is_any_sep, Path.leaf_is_dir_sep. lia. Qed.
+Proof. intros. unfold Path.leaf_is_any_sep, Path.leaf_is_dir_sep. lia.
+Qed.
 Print Assumptions leaf_is_any_sep_is_dir_sep.
 
 Theorem leaf_is_empty_range_is_model :
@@ -39,5 +40,6 @@ Print Assumptions leaf_is_empty_range_is_model.
 
 Theorem path_dir_sep_is_model :
   Path.dir_sep = PathNormSpec.SEP /\ Path.dir_sep = PathJoinSpec.sepc /\ PathDecModel.is_dir_sep Path.dir_sep = true.
-Proof. repeat split; reflexivity. Qed.
+Proof. repeat split; reflexivity.
+Qed.
 Print Assumptions path_dir_sep_is_model.
